@@ -56,6 +56,10 @@ RAW_EXPECT = {
     "unary-plus-untyped": ("C01", r"^ConditionNotBool "),
     "ampersand-untyped": ("C01", r"^TypeMismatch "),
     "power-right-associative": ("C02", r"x=DInt:512"),
+    "named-argument-case": ("C02", r"r1=Int:4 r2=Int:0"),
+    "mixed-positional-formal-call": ("C02", r"r=Int:2 "),
+    "return-variable-case": ("C02", r"r=Int:0 "),
+    "recursion-stack-overflow": ("C01", r"^child-killed signal="),
 }
 
 
